@@ -133,7 +133,259 @@ func (c *Ctx) rulesC02(a *coreAnchors) {
 		}
 		// the Remove filter: a slicesFilter call whose closure reads toRemove built from State.Remove, applied to the second parseAdd result
 		fRemove := c.field(pm, "State", "Remove")
+		// every parseAdd result goes through a Remove-based filter (a slicesFilter whose predicate
+		// consults State.Remove: directly, through stateBlockedBy, or through a captured list built from it)
+		isRemoveFilter := func(call ssa.CallInstruction) bool {
+			args := call.Common().Args
+			if calleeName(call.Common()) != "slicesFilter" || len(args) != 2 {
+				return false
+			}
+			mc, ok := args[1].(*ssa.MakeClosure)
+			if !ok {
+				return false
+			}
+			clo := mc.Fn.(*ssa.Function)
+			if funcReadsField(clo, fRemove) {
+				return true
+			}
+			for _, b := range clo.Blocks {
+				for _, ins := range b.Instrs {
+					if ci, ok := ins.(ssa.CallInstruction); ok {
+						if g := ci.Common().StaticCallee(); g != nil && g.Blocks != nil && funcReadsField(g, fRemove) {
+							return true
+						}
+					}
+				}
+			}
+			for _, bnd := range mc.Bindings {
+				al, ok := bnd.(*ssa.Alloc)
+				if !ok || al.Referrers() == nil {
+					continue
+				}
+				for _, r := range *al.Referrers() {
+					if st, ok := r.(*ssa.Store); ok && st.Addr == ssa.Value(al) {
+						if derives(st.Val, func(x ssa.Value) bool { return fieldOf(x) == fRemove || loadOfField(x) == fRemove }) {
+							return true
+						}
+					}
+				}
+			}
+			return false
+		}
+		nf := 0
+		for i, s := range c.sitesIn(ts, funcKey(pa)) {
+			v := s.Value()
+			filtered := false
+			for _, b := range ts.Blocks {
+				for _, ins := range b.Instrs {
+					ci, ok := ins.(ssa.CallInstruction)
+					if !ok || !isRemoveFilter(ci) {
+						continue
+					}
+					nf++
+					if dominatesInstr(s, ci) && derives(ci.Common().Args[0], func(x ssa.Value) bool { return x == ssa.Value(v) }) {
+						filtered = true
+					}
+				}
+			}
+			c.check(filtered, "C02.last", "parseAdd result passes a Remove filter"+nth(i), s.Pos(), "states implied by Add relations reach the result without being checked against the Remove relations of the surviving states: two mutually-removing states can end up active together")
+		}
+		if nf < 2 {
+			c.undecided(fmt.Sprintf("C02.last: only %d Remove-based slicesFilter calls recognised in TargetStates", nf))
+		}
 		c.check(funcReadsField(ts, fRemove), "C02.last", "TargetStates builds the Remove set from State.Remove", ts.Pos(), "Remove relations of the states about to be set are not consulted")
+	}
+	// the Require filter decides from the missing requirements of EVERY state, whatever its history
+	if pr != nil {
+		gm := c.fn(pm + ":DefaultRelationsResolver.getMissingRequires")
+		nr := 0
+		for _, clo := range pr.AnonFuncs {
+			for i, r := range returnsOf(clo) {
+				for _, v := range retVals(r) {
+					if bt, ok := v.Type().Underlying().(*types.Basic); !ok || bt.Kind() != types.Bool {
+						continue
+					}
+					nr++
+					var fromGM func(x ssa.Value, d int) bool
+					fromGM = func(x ssa.Value, d int) bool {
+						if d > 12 {
+							return false
+						}
+						switch y := x.(type) {
+						case *ssa.Call:
+							if y.Call.StaticCallee() == gm {
+								return true
+							}
+							for _, a := range y.Call.Args {
+								if fromGM(a, d+1) {
+									return true
+								}
+							}
+						case *ssa.BinOp:
+							return fromGM(y.X, d+1) || fromGM(y.Y, d+1)
+						case *ssa.UnOp:
+							return fromGM(y.X, d+1)
+						case *ssa.Phi:
+							for _, e := range y.Edges {
+								if !fromGM(e, d+1) {
+									return false
+								}
+							}
+							return len(y.Edges) > 0
+						}
+						return false
+					}
+					good := gm != nil && fromGM(v, 0)
+					c.check(good, "C02.last", "parseRequire keeps a state only by its missing requirements"+nth(i), r.Pos(),
+						"the Require filter returns "+render(v)+", which is not (only) a function of getMissingRequires: some states are kept without their Require relation being re-checked, e.g. after another state's Remove relation took the requirement away")
+				}
+			}
+		}
+		if nr < 1 {
+			c.undecided("C02.last: no boolean filter closure found in parseRequire")
+		}
+	}
+	// the Require fixed point re-evaluates against the SHRINKING list
+	if pr != nil {
+		gm := c.fn(pm + ":DefaultRelationsResolver.getMissingRequires")
+		ng := 0
+		var visit func(f *ssa.Function)
+		visit = func(f *ssa.Function) {
+			for _, a := range f.AnonFuncs {
+				visit(a)
+			}
+			if gm == nil {
+				return
+			}
+			for i, s := range c.sitesIn(f, funcKey(gm)) {
+				ng++
+				args := s.Common().Args
+				cand := args[len(args)-1]
+				good, why := false, "the candidate list is "+render(cand)
+				if u, ok := cand.(*ssa.UnOp); ok && u.Op == token.MUL {
+					if al := funcVarAllocAny(u.X); al != nil && al.Referrers() != nil {
+						for _, r := range *al.Referrers() {
+							if st, ok := r.(*ssa.Store); ok && st.Addr == ssa.Value(al) {
+								if call, ok := st.Val.(*ssa.Call); ok && calleeName(&call.Call) == "slicesFilter" {
+									good = true
+								}
+							}
+						}
+						why = "the candidate list variable is never assigned the filter's result"
+					}
+				} else if f == pr {
+					// not captured: the loop-carried SSA value
+					if flowsFrom(cand, func(x ssa.Value) bool {
+						call, ok := x.(*ssa.Call)
+						return ok && calleeName(&call.Call) == "slicesFilter"
+					}) {
+						good = true
+					}
+				}
+				c.check(good, "C02.last", "parseRequire re-checks requirements against the shrinking list"+nth(i), s.Pos(),
+					why+": every pass of the fixed point compares against the original candidates, so a state whose requirement was dropped in an earlier pass is kept (Require chains deeper than the number of parseRequire calls stay half-active)")
+			}
+		}
+		visit(pr)
+		if ng < 1 {
+			c.undecided("C02.last: no getMissingRequires call found in parseRequire")
+		}
+	}
+	// every state about to be set contributes its Remove relation, whatever its history
+	if ts != nil {
+		fRemove := c.field(pm, "State", "Remove")
+		fSB := c.field(pm, "DefaultRelationsResolver", "statesBefore")
+		fMulti := c.field(pm, "State", "Multi")
+		fAS := c.field(pm, "Machine", "activeStates")
+		na := 0
+		for _, b := range ts.Blocks {
+			for _, ins := range b.Instrs {
+				call, ok := ins.(*ssa.Call)
+				if !ok {
+					continue
+				}
+				bi, ok := call.Call.Value.(*ssa.Builtin)
+				if !ok || bi.Name() != "append" || len(call.Call.Args) != 2 {
+					continue
+				}
+				if !derives(call.Call.Args[1], func(x ssa.Value) bool { return fieldOf(x) == fRemove || loadOfField(x) == fRemove }) {
+					continue
+				}
+				na++
+				bad := ""
+				mentions := func(cond ssa.Value) string {
+					out := ""
+					valueTree(cond, 8, func(x ssa.Value) {
+						for _, hf := range []*types.Var{fSB, fMulti, fAS} {
+							if hf != nil && (fieldOf(x) == hf || loadOfField(x) == hf) {
+								out = hf.Name()
+							}
+						}
+					})
+					return out
+				}
+				for _, g := range guardsOf(b) {
+					if m := mentions(g.Cond); m != "" {
+						bad = m
+					}
+				}
+				// a history-based branch inside the collecting loop that can skip the append
+				var header *ssa.BasicBlock
+				for d := b.Idom(); d != nil && header == nil; d = d.Idom() {
+					if !blockReach(b)[d] {
+						continue
+					}
+					for _, p := range d.Preds {
+						if d.Dominates(p) { // back edge: d is a loop header
+							header = d
+						}
+					}
+				}
+				if header != nil {
+					for _, x := range ts.Blocks {
+						if !header.Dominates(x) || !blockReach(x)[header] || len(x.Instrs) == 0 {
+							continue
+						}
+						ifi, ok := x.Instrs[len(x.Instrs)-1].(*ssa.If)
+						if !ok {
+							continue
+						}
+						m := mentions(ifi.Cond)
+						if m == "" {
+							continue
+						}
+						for _, succ := range x.Succs {
+							// can succ get back to the loop header without passing the append block?
+							seen := map[*ssa.BasicBlock]bool{b: true}
+							var dfs func(y *ssa.BasicBlock) bool
+							dfs = func(y *ssa.BasicBlock) bool {
+								if y == header {
+									return true
+								}
+								if seen[y] || !header.Dominates(y) {
+									return false
+								}
+								seen[y] = true
+								for _, z := range y.Succs {
+									if dfs(z) {
+										return true
+									}
+								}
+								return false
+							}
+							if succ != b && dfs(succ) {
+								bad = m
+							}
+						}
+					}
+				}
+				c.check(bad == "", "C02.last", "TargetStates collects the Remove relation of every state about to be set"+nth(na-1), ins.Pos(),
+					"the collection is conditional on "+bad+": states that were already active no longer block the states re-added by the following parseAdd pass, so two members of an exclusive group can become active together")
+			}
+		}
+		if na < 1 {
+			c.undecided("C02.last: no append of State.Remove found in TargetStates")
+		}
 	}
 	c.floor("C02.last", 4)
 
@@ -406,4 +658,10 @@ func sameSliceVar(a, b ssa.Value) bool {
 		return false
 	}
 	return walk(a)
+}
+
+// funcVarAllocAny resolves the Alloc behind an address that is either the
+// Alloc itself or a free variable bound to it (any type, not only funcs).
+func funcVarAllocAny(addr ssa.Value) *ssa.Alloc {
+	return funcVarAlloc(addr)
 }
